@@ -23,11 +23,14 @@ def instances(tier):
         out.append({'entry': 'h_frac', 'params': [k, k % 2], 'opts': {'timeout_ms': 300000}, 'bound': 'fractional seconds with every %d digit(s), zone %s' % (k, '+01:00' if k % 2 else 'Z')})
     for yi in ((2, 4, 8) if q else (1, 2, 3, 4, 5, 6, 7, 8)):
         out.append({'entry': 'h_http', 'params': [yi], 'opts': {'timeout_ms': 300000}, 'bound': 'HTTP-format vs ISO-format text of the same date: year %s, every day 01-28 (symbolic digits)' % ['', '0001', '0050', '0099', '0100', '1900', '1969', '2000', '9999'][yi]})
+    for ti in range(9):
+        for fi in (0, 1, 2, 3):
+            out.append({'entry': 'h_format_at', 'params': [ti, fi], 'bound': 'CONCRETE instant #%d formatted as %s and parsed back (regression vector, not a symbolic claim)' % (ti, ('LONG', 'SHORT', 'FULL', 'HTTP')[fi])})
     return out
 
 
 BOUNDS = {'quick': 'parser: 9 ISO/HTTP template strings with every window of 2 positions (step 2) replaced by arbitrary alphabet characters, and every string up to 3 characters; fractional seconds of 1, 3, 8, 9 symbolic digits; zone offsets: every sign, hour 00-23 and minute 00-59 in the three syntaxes at 3 concrete instants',
           'thorough': 'windows of 3 positions at every offset, strings to 4 characters, 5 instants'}
-OUTSIDE = ['the calendar arithmetic clauses (seconds <-> fields for every day of years 1-9999, format/parse round trip of arbitrary instants): they are double-precision computations (floor(t*(1/86400.0)), fraction-of-day times 24, 60, 60) that z3 and cvc5 could not decide bit-precisely even for 3-year windows (unknown after 150-600 s); they are NOT claimed',
+OUTSIDE = ['(9 concrete instants are formatted and parsed back in the four formats as regression vectors; they decide nothing about other instants)', 'the calendar arithmetic clauses (seconds <-> fields for every day of years 1-9999, format/parse round trip of arbitrary instants): they are double-precision computations (floor(t*(1/86400.0)), fraction-of-day times 24, 60, 60) that z3 and cvc5 could not decide bit-precisely even for 3-year windows (unknown after 150-600 s); they are NOT claimed',
            'strings with more than 3 simultaneously arbitrary characters', 'strings without zone designator beyond parsing (local time goes through localtime, an environment model)', 'the format-driven parser Date::parse(fmt)']
 ASSUMPTIONS = ['libc = env/vlibc.c (localtime = UTC)', 'pow(10, k) for concrete k is evaluated concretely']
